@@ -194,6 +194,102 @@ func c01Judge(rc *RunCtx, msg, att []byte, attesters []ct.Attester, pubs [][]byt
 	}
 }
 
+var c01BigPool []*ref.Key
+
+// c01LargeQuorums: attester sets of 33..70 keys and thresholds around 32, 33, 64, 65: honest attestations, and
+// attestations of exactly the right length in which signers repeat across the 32nd / 64th position, neighbours are
+// exchanged there, a signature is the copy of the one 32 places earlier, one signer is not enabled, a block of 16
+// signers is repeated. Judged by the exact and the soundness oracle like every other attestation.
+func c01LargeQuorums(rc *RunCtx) {
+	if c01BigPool == nil {
+		c01BigPool = ref.SortByAddr(ref.KeyPool(90)[10:])
+	}
+	msg := (&InMsg{Version: 0, Src: 0, Dst: 4, Nonce: 4242, Sender: Structured32(1), Recipient: Structured32(2), Caller: make([]byte, 32), Body: []byte("large quorum")}).Bytes()
+	sigOf := map[*ref.Key][]byte{}
+	sig := func(k *ref.Key) []byte {
+		if sigOf[k] == nil {
+			sigOf[k] = k.Sign(msg)
+		}
+		return sigOf[k]
+	}
+	cat := func(ks []*ref.Key) []byte {
+		var out []byte
+		for _, k := range ks {
+			out = append(out, sig(k)...)
+		}
+		return out
+	}
+	ci := 0
+	for _, n := range []int{33, 34, 40, 64, 65, 70} {
+		en := c01BigPool[:n]
+		outsider := c01BigPool[n]
+		var attesters []ct.Attester
+		var pubs [][]byte
+		for i, k := range en {
+			attesters = append(attesters, ct.Attester{Attester: k.Spell(i)})
+			pubs = append(pubs, k.Pub)
+		}
+		for _, t := range []int{31, 32, 33, 34, 63, 64, 65, n - 1, n} {
+			if t > n || t < 2 {
+				continue
+			}
+			ci++
+			if ci%rc.NShards != rc.Shard {
+				continue
+			}
+			base := append([]*ref.Key(nil), en[:t]...)
+			try := func(op string, ks []*ref.Key, idx int) {
+				if ks == nil {
+					return
+				}
+				c01Judge(rc, msg, cat(ks), attesters, pubs, uint32(t), fmt.Sprintf("large-quorum/%s/n=%d/t=%d", op, n, t), "large-"+op, idx, false)
+				rc.Cov.Cell("C01_large_quorums", fmt.Sprintf("%s/t=%d", op, t))
+			}
+			try("honest", base, 0)
+			try("honest-last-signers", append([]*ref.Key(nil), en[n-t:]...), 0)
+			for _, b := range []int{32, 64} {
+				if t <= b {
+					continue
+				}
+				// signers 0..b-1, then again from signer 1 on: every run of b is increasing, run tails increase
+				rep := append([]*ref.Key(nil), en[:b]...)
+				for j := 1; len(rep) < t; j++ {
+					rep = append(rep, en[j%n])
+				}
+				try(fmt.Sprintf("repeat-across-%d", b), rep, b)
+				// ... with a larger last signer so that the tail of the second run is above the tail of the first
+				rep2 := append([]*ref.Key(nil), rep...)
+				rep2[t-1] = en[n-1]
+				try(fmt.Sprintf("repeat-across-%d-rising-tail", b), rep2, b)
+				sw := append([]*ref.Key(nil), base...)
+				sw[b-1], sw[b] = sw[b], sw[b-1]
+				try(fmt.Sprintf("exchanged-at-%d", b), sw, b)
+				cp := append([]*ref.Key(nil), base...)
+				cp[b] = cp[b-32]
+				try(fmt.Sprintf("copy-of-32-earlier-at-%d", b), cp, b)
+				out := append([]*ref.Key(nil), base...)
+				out[b] = outsider
+				try(fmt.Sprintf("outsider-at-%d", b), out, b)
+				if t > b+1 {
+					sw2 := append([]*ref.Key(nil), base...)
+					sw2[b], sw2[b+1] = sw2[b+1], sw2[b]
+					try(fmt.Sprintf("exchanged-after-%d", b), sw2, b+1)
+				}
+			}
+			if t >= 32 {
+				blk := []*ref.Key{}
+				for len(blk) < t {
+					blk = append(blk, en[len(blk)%16])
+				}
+				try("block-of-16-repeated", blk, 16)
+				one := append([]*ref.Key(nil), base...)
+				one[t-1] = one[0]
+				try("first-signer-again-at-the-end", one, t-1)
+			}
+		}
+	}
+}
+
 // c01Tx: receive / replace transactions carry "accepted => sound" (done by the engine's
 // outcome oracle, which evaluates the exact oracle under the chain's own attester set).
 func c01Tx(rc *RunCtx, nHist, nTx int) {
@@ -334,6 +430,7 @@ func init() {
 			c01Direct(rc, rc.Pick(8, 64), false)
 			c01Tx(rc, rc.Pick(1, 6), rc.Pick(400, 1500))
 			c01Flows(rc, rc.Pick(1, 4))
+			c01LargeQuorums(rc)
 			ProbeHistory(rc, rc.Pick(240, 900), false)
 		},
 		Floors: func(c *Cov, tier string) []string {
@@ -349,6 +446,9 @@ func init() {
 				if c.Matrix["C01_accepted_v"][v] == 0 {
 					miss = append(miss, "no accepted attestation ending in v="+v)
 				}
+			}
+			if len(c.Matrix["C01_large_quorums"]) < 100 || c.Matrix["C01_op_verdict"]["large-honest/accept"] < 30 {
+				miss = append(miss, fmt.Sprintf("large quorums: %d cells, %d honest accepted", len(c.Matrix["C01_large_quorums"]), c.Matrix["C01_op_verdict"]["large-honest/accept"]))
 			}
 			if c.Matrix["C01_op_verdict"]["honest/accept"] < 200 {
 				miss = append(miss, "fewer than 200 accepted honest attestations")
